@@ -14,6 +14,7 @@ for _o in OBLIGATIONS:
         _o.timeout = _o.cost = 1800
 
 META = {
+    "explanation": "Linearizability is not explored as a set of schedules: CBMC 6.11 rejects multi-threaded programs that share pointers. What is decided, by bounded model checking of one real API call at a time from an arbitrary well-formed state, is the sequential rely/guarantee skeleton the linearizability argument rests on: every API function captures (memtable, immutable memtable, current version, last sequence) in ONE critical section of db->mutex and later uses exactly the captured values although other threads (modelled as interference at every lock/unlock/wait) have changed the shared fields meanwhile; writers assign consecutive sequence numbers in log order and publish them only after the whole commit group is in the memtable; reference counts pin what is read outside the mutex.",
     "level": "other",
     "level_text": "Sequential rely/guarantee obligations, each decided by CBMC on the real db_impl.c: NO thread interleaving is explored, enumerated or executed anywhere in this check. One API call (ldb_write; ldb_get / ldb_has, ldb_iterator + its cleanup, ldb_snapshot, ldb_release, ldb_record_read_sample) runs alone from an arbitrary well-formed state; 'the other threads' are a model that may change the shared fields (writer queue tail, last_sequence, mem, imm, current version, snapshot list, seed) exactly at the points where the calling thread does not hold db->mutex (blocking in lock, unlock, cond_wait). Decided: every access to the state the linearizability argument rests on happens inside a db->mutex critical section (re-enabled ldb_mutex_assert_held, held-assertions in every stub, ghost copy compared at every lock); a reader captures (mem, imm, current, last_sequence) in ONE critical section and later uses exactly the captured objects, pinned by references taken before the release and dropped once afterwards on every path; lookups go mem, imm, version and stop at the first answer; a writer assigns consecutive sequence numbers in log order and publishes last_sequence only after the whole group is in the memtable.",
     "level_note": "This is NOT a proof of linearizability: real-time order across threads, 'a key never goes backwards under true concurrency', the lock-free memtable reads concurrent with an insert (skiplist publication order, C10.c) and the hardware memory model are outside. The step from these per-call guarantees to linearizability (linearization point of a write = the store to last_sequence under the mutex; of a read = its capturing critical section) is a prose argument in DESIGN section 6 C08 and is trusted, as are the environment model (other threads respect the same locking discipline; bounded numbers of switches / installs / arriving writers), the stubs, and CBMC's semantics of the goto-cc translation. CBMC 6.11 rejects multi-threaded programs that dereference shared pointers, so no interleaving could be encoded.",
